@@ -7,9 +7,11 @@
 package randommod
 
 import (
+	"encoding/hex"
 	"encoding/json"
 	"fmt"
 	"math/big"
+	"strings"
 
 	sdk "github.com/cosmos/cosmos-sdk/types"
 
@@ -42,6 +44,11 @@ type Config struct {
 	PErrResult  float64 `json:"p_error_result"`
 	PSilent     float64 `json:"p_silent"`
 	PPoor       float64 `json:"p_poor_requester"`
+	// GenesisBulk: the chain starts with this many pending plain requests of as many
+	// consumers, all due at height GenesisDue (a long history behind the chain): more than a
+	// hundred fulfilments in one begin block
+	GenesisBulk int   `json:"genesis_bulk,omitempty"`
+	GenesisDue  int64 `json:"genesis_due,omitempty"`
 }
 
 // Module implements engine.Module.
@@ -106,7 +113,16 @@ func (m *Module) Configure(w *engine.World, r *engine.Rand) any {
 	c.PErrResult = []float64{0, 0.1, 0.3}[r.Intn(3)]
 	c.PSilent = []float64{0, 0.1, 0.4}[r.Intn(3)]
 	c.PPoor = []float64{0, 0, 0.1}[r.Intn(3)]
+	// (a stream of its own: a seed's run is otherwise what it was before this arm existed)
+	if gr := engine.NewRand(engine.Mix(w.Sched.Seed, "random-genesis", 0)); gr.Bool(0.06) {
+		c.GenesisBulk = 101 + gr.Intn(40)
+		c.GenesisDue = 3 + gr.Int63n(8)
+	}
 	return c
+}
+
+func bulkConsumer(i int) sdk.AccAddress {
+	return sdk.AccAddress([]byte(fmt.Sprintf("rbulk-consumer-%05d", i))) // 20 bytes
 }
 
 func (m *Module) LoadConfig(w *engine.World, raw json.RawMessage) {
@@ -122,6 +138,7 @@ func (m *Module) Setup(w *engine.World) {
 // Genesis puts the `random` system service definition into the service genesis (the
 // application's InitChainer would do that on a real chain; simapp has it commented out).
 func (m *Module) Genesis(w *engine.World, n *engine.Node, gs simapp.GenesisState) {
+	m.genesisBulk(n, gs)
 	cdc := n.App.AppCodec()
 	var g svctypes.GenesisState
 	cdc.MustUnmarshalJSON(gs[svctypes.ModuleName], &g)
@@ -134,9 +151,52 @@ func (m *Module) Genesis(w *engine.World, n *engine.Node, gs simapp.GenesisState
 	gs[svctypes.ModuleName] = cdc.MustMarshalJSON(&g)
 }
 
+// genesisBulk puts the pending requests of the bulk arm into the random genesis.
+func (m *Module) genesisBulk(n *engine.Node, gs simapp.GenesisState) {
+	if m.cfg.GenesisBulk == 0 {
+		return
+	}
+	cdc := n.App.AppCodec()
+	var g randomtypes.GenesisState
+	cdc.MustUnmarshalJSON(gs[randomtypes.ModuleName], &g)
+	if g.PendingRandomRequests == nil {
+		g.PendingRandomRequests = map[string]randomtypes.Requests{}
+	}
+	var rs randomtypes.Requests
+	for i := 0; i < m.cfg.GenesisBulk; i++ {
+		rs.Requests = append(rs.Requests, randomtypes.Request{Height: 0, Consumer: bulkConsumer(i).String(), TxHash: strings.Repeat("00", 32)})
+	}
+	g.PendingRandomRequests[fmt.Sprint(m.cfg.GenesisDue)] = rs
+	gs[randomtypes.ModuleName] = cdc.MustMarshalJSON(&g)
+}
+
 func (m *Module) Started(w *engine.World) {
 	m.hash[w.Height] = append([]byte{}, w.Node.AppHash()...)
 	m.times[w.Height] = w.Time.Unix()
+	if m.cfg.GenesisBulk == 0 || len(m.reqs) > 0 {
+		return
+	}
+	// the requests the chain starts with are pending requests like any other: made at the
+	// height their record states, due at the height they are queued for
+	n := 0
+	w.Node.K.Random.IterateRandomRequestQueue(w.Node.Ctx(), func(height int64, reqID []byte, rq randomtypes.Request) bool {
+		id := hex.EncodeToString(reqID)
+		addr, err := sdk.AccAddressFromBech32(rq.Consumer)
+		if err != nil {
+			return false
+		}
+		e := &rreq{OpID: -1, ID: id, Requester: rq.Consumer, Addr: append([]byte{}, addr.Bytes()...), ReqH: rq.Height,
+			Interval: uint64(height - rq.Height), Due: height, Oracle: rq.Oracle}
+		m.reqs[id] = e
+		m.ord = append(m.ord, id)
+		m.queue[qkey(height, id)] = &qent{Due: height, ID: id}
+		n++
+		return false
+	})
+	w.Hit("random.genesis_bulk")
+	if n != m.cfg.GenesisBulk {
+		w.Violate("C18", "request/id-collision/genesis", "the genesis carries %d pending requests of different consumers; after import the queue holds %d", m.cfg.GenesisBulk, n)
+	}
 }
 
 // ---- operations ---------------------------------------------------------------------------------------
